@@ -4,7 +4,7 @@ from __future__ import annotations
 import itertools
 
 from ..core import Prop, Violation
-from ._coord import CoordMixin, Impl
+from ._coord import CoordMixin, Impl, gen_multi_kill
 
 FINDING = "C15-edges-dropped-on-progress"
 EXCUSABLE = {"exact_missed_deadlock", "exact_phantom_deadlock", "reported_members_really_wait"}
@@ -35,7 +35,7 @@ class C15(CoordMixin, Prop):
     quick_budget = 2500
     thorough_budget = 40000
     all_branches = ["dl:none", "dl:cycle", "acq:acquired", "acq:blocked", "acq:reentrant", "acq:preempted", "rel:0",
-                    "rel:1", "wd:deadlock", "wd:timeout"]
+                    "rel:1", "wd:deadlock", "wd:timeout", "wd:starvation"]
     assumptions = [
         "an operation id is not started again while an operation with that id is still active; controller calls are "
         "made only for operations listed in active_operations; a resource id is registered once",
@@ -86,6 +86,8 @@ class C15(CoordMixin, Prop):
         return f"cfg {lim} none none {rng.choice(['priority', 'priority', 'oldest'])}"
 
     def generate(self, rng, tier, n):
+        for i in range(max(20, n // 40)):
+            yield gen_multi_kill(rng)
         # classic cycles without any trigger event: must be detected, attributed to nothing
         for i in range(max(10, n // 50)):
             k = rng.choice([2, 2, 3])
@@ -235,6 +237,11 @@ class C15(CoordMixin, Prop):
                     if not (killed & set(members)):
                         out.append(Violation("deadlock_handled", f"a member of {members} is terminated",
                                              f"events={info.get('events')}", idx))
+            for a, why in list(info.get("events", [])) + list(info.get("work_events", [])):
+                if a in st["active"] or any(l["owner"] == a for l in st["locks"].values()) \
+                        or any(x == a for l in st["locks"].values() for x, _ in l["waiting"]):
+                    out.append(Violation("terminated_operation_is_gone", f"op{a} ({why}) not active, owns nothing, waits nowhere",
+                                         "still active / owning / queued", idx))
             # ---- exactness at this point of the history ----
             if dl is None and ref_cycle:
                 out.append(Violation("exact_missed_deadlock", f"a cycle is reported (reference wait-for edges {sorted(ref)})",
